@@ -61,7 +61,7 @@ $(B)/asan/mocksim: $(patsubst %.cpp,$(B)/asan/verif/%.o,$(MOCKSIM_SRCS)) $(call 
 
 THRSIM_SRCS := thrsim/thrsim.cpp
 $(B)/tsi/thrsim: $(patsubst %.cpp,$(B)/tsi/verif/%.o,$(THRSIM_SRCS)) $(call repo_objs,tsi)
-	$(CXX) $(FLAGS_tsi) $^ -o $@ -lpthread -Wl,--wrap=pthread_mutex_init,--wrap=pthread_mutex_lock,--wrap=pthread_mutex_trylock,--wrap=pthread_mutex_unlock,--wrap=pthread_mutex_destroy,--wrap=__cxa_allocate_exception
+	$(CXX) $(FLAGS_tsi) $^ -o $@ -lpthread -Wl,--wrap=pthread_mutex_init,--wrap=pthread_mutex_lock,--wrap=pthread_mutex_trylock,--wrap=pthread_mutex_unlock,--wrap=pthread_mutex_destroy,--wrap=__cxa_allocate_exception,--wrap=pthread_mutex_timedlock
 
 clean:
 	rm -rf $(B)
